@@ -951,6 +951,14 @@ fn main() {
     }
     let mode = envs("MAYV_MODE", "timed");
     run(cfg, move |ctx| {
+        // Every worker leaves its first `select` before the scenario starts: that first call has no timeout, and under
+        // the harness only `wakeup` ends a virtual wait - a kernel event for a descriptor of a worker that nobody has
+        // woken yet would never be polled (a false HANG of the harness, not of may: the real epoll_wait returns).
+        // Spawning from this (non-worker) thread wakes the workers round-robin.
+        for _ in 0..envn("MAYV_WORKERS", 2) {
+            let h = unsafe { may::coroutine::spawn(|| {}) };
+            let _ = h.join();
+        }
         tap::enable();
         run_mode(ctx, &mode)
     })
